@@ -757,3 +757,63 @@ Example C16_rt_premises_hold :
   /\ ex_origin_of t_https_a_xn_bcher = Some (OOk o 0)
   /\ ex_origin_of t_https_a_bucher = Some (OOk o 0).
 Proof. exact rt_unicode_example. Qed.
+
+(* ---- appended block (task c09last): the origin round trip for the REAL idna oracle, premise on results only ---- *)
+(* C16_rt_parsed_model is stated relative to IdnaOK idna, which is false of the real idna crate (F-C10-1); C09_inst2_C16_rt_parsed
+   (Properties/C09.v) replaces it by IdnaOK2 + "parse and origin succeed with the capped oracle".  Here the premise is a
+   predicate on RESULTS: origin_clean u = the parse result u and every URL of its blob chain (url_origin re-enters the
+   parser on the path of a blob: URL) passes res_clean (Properties/C09.v: the stored host text is outside Known_C10_long; a
+   file URL has kept its host); for a URL that is no blob: URL it is res_clean u alone.  All four runs are runs with the
+   oracle ITSELF *)
+From Coq Require Import String.
+From RU Require Import Proofs.C09_Long Proofs.C09_RunClean Proofs.C09_RealOrigin.
+
+Check (eq_refl : origin_clean = fun dbg idna u => chain_clean dbg idna (origin_fuel u) u).
+Check (fun dbg idna f u => eq_refl : chain_clean dbg idna (S f) u =
+  (res_clean u = true
+   /\ match scheme u with
+      | Some s =>
+          if str_mem s T_ORIGIN_BLOB_SCHEMES then
+            match path u with
+            | Some p => match url_parse dbg (Host.host_parse idna) Host.host_parse_opaque Host.host_display p with
+                        | POk v => chain_clean dbg idna f v
+                        | _ => True
+                        end
+            | None => True
+            end
+          else True
+      | None => True
+      end)).
+
+Theorem C16_rt_parsed_real : forall dbg idna, IdnaOK2 idna -> forall input u c o c',
+  url_parse dbg (Host.host_parse idna) Host.host_parse_opaque Host.host_display input = POk u ->
+  url_origin dbg (Host.host_parse idna) Host.host_parse_opaque Host.host_display c u = OOk o c' -> is_tuple o = true ->
+  nlen (ascii_serialization Host.host_display o) < U32_MAX_P -> origin_clean dbg idna u ->
+  exists w, url_parse dbg (Host.host_parse idna) Host.host_parse_opaque Host.host_display (ascii_serialization Host.host_display o) = POk w
+            /\ url_origin dbg (Host.host_parse idna) Host.host_parse_opaque Host.host_display c' w = OOk o c'.
+Proof. exact origin_rt_real. Qed.
+Print Assumptions C16_rt_parsed_real.
+
+(* a URL that is no blob: URL: res_clean u alone *)
+Theorem C16_origin_clean_nonblob : forall dbg idna u s, scheme u = Some s -> str_mem s T_ORIGIN_BLOB_SCHEMES = false ->
+  res_clean u = true -> origin_clean dbg idna u.
+Proof. exact origin_clean_nonblob. Qed.
+Print Assumptions C16_origin_clean_nonblob.
+
+(* non-vacuity (stand-in oracle idna_long: IdnaOK2 holds, IdnaOK does not): https://a.b:8443/x and blob:https://a.b/x
+   have clean chains and tuple origins; the result of http://x/ (host answered inside the class) does not pass res_clean *)
+Example C16_rt_parsed_real_examples :
+  IdnaOK2 idna_long
+  /\ match url_parse true (Host.host_parse idna_long) Host.host_parse_opaque Host.host_display (C02_Reach.B "https://a.b:8443/x"%string) with
+     | POk u => origin_clean true idna_long u
+                /\ match url_origin true (Host.host_parse idna_long) Host.host_parse_opaque Host.host_display 0 u with
+                   | OOk o _ => is_tuple o = true | _ => False end
+     | _ => False end
+  /\ match url_parse true (Host.host_parse idna_long) Host.host_parse_opaque Host.host_display (C02_Reach.B "blob:https://a.b/x"%string) with
+     | POk u => origin_clean true idna_long u
+                /\ match url_origin true (Host.host_parse idna_long) Host.host_parse_opaque Host.host_display 0 u with
+                   | OOk o _ => is_tuple o = true | _ => False end
+     | _ => False end
+  /\ match url_parse true (Host.host_parse idna_long) Host.host_parse_opaque Host.host_display (C02_Reach.B "http://x/"%string) with
+     | POk u => res_clean u = false | _ => False end.
+Proof. exact (conj idna_long_ok2 origin_real_examples). Qed.
